@@ -724,16 +724,19 @@ static void pipe_seq_cb(const vf_seq* s, void* ctx) {
   pipe_input(buf, s->n);
 }
 /* 'requests no memory at all': streaming decoder, encoders, fixed-buffer serialization, size computation */
+static void noalloc_input(const uint8_t* buf, size_t n, bool try_load);
 static void noalloc_seq_cb(const vf_seq* s, void* ctx) {
   (void)ctx;
   uint8_t buf[12 * 16];
-  size_t n = s->n;
-  memcpy(buf, s->bytes, n);
+  memcpy(buf, s->bytes, s->n);
+  noalloc_input(buf, s->n, s->status == VD_ACCEPT);
+}
+static void noalloc_input(const uint8_t* buf, size_t n, bool try_load) {
   vf_case("noalloc", buf, n);
   alloc_begin();
   trap_hits = 0;
   struct cbor_load_result res;
-  cbor_item_t* it = s->status == VD_ACCEPT ? cbor_load(buf, n, &res) : NULL;
+  cbor_item_t* it = try_load ? cbor_load(buf, n, &res) : NULL;
   uint64_t r0 = va.requests, f0 = va.frees;
   vf_rec rec;
   size_t off = 0;
@@ -746,10 +749,10 @@ static void noalloc_seq_cb(const vf_seq* s, void* ctx) {
   }
   if (it) {
     vf_cnt(K13_NOALLOC_TREES, 1);
-    unsigned char out[512];
+    static unsigned char out[1 << 17];
     size_t sz = cbor_serialized_size(it);
     (void)cbor_serialize(it, out, sizeof out);
-    (void)cbor_serialize(it, out, sz ? sz - 1 : 0);
+    (void)cbor_serialize(it, out, sz && sz <= sizeof out ? sz - 1 : 0);
     vf_cnt(K13_NOALLOC_CALLS, 3);
   }
   if (va.requests != r0 || va.frees != f0 || trap_hits)
@@ -802,6 +805,7 @@ static void unit(uint64_t u) {
     const uint8_t* b = vf_corpus_item(u, &n, NULL);
     if (alloc_config == 1 && n > 20000) return; /* the 1 MiB arena cannot hold the largest items */
     pipe_input(b, n);
+    noalloc_input(b, n, true); /* deep and wide trees too: size computation and fixed-buffer serialization request nothing whatever the shape */
   }
 #endif
 }
@@ -865,15 +869,7 @@ static void replay(const char* tag, const uint8_t* d, size_t len) {
 #if PROP == 13
   if (!strcmp(tag, "pipeline")) { pipe_input(d, len); return; }
   if (!strcmp(tag, "noalloc-enc")) { noalloc_encoders(); return; }
-  if (!strcmp(tag, "noalloc")) {
-    rdecode rd;
-    ref_arena_reset();
-    ref_decode(d, len, CBOR_MAX_STACK_SIZE, 64 * 1024, NULL, &rd);
-    size_t off[2] = {0, len};
-    vf_seq sq = {d, len, 1, off, rd.ok ? VD_ACCEPT : VD_REJECT, &rd};
-    noalloc_seq_cb(&sq, NULL);
-    return;
-  }
+  if (!strcmp(tag, "noalloc")) { noalloc_input(d, len, true); return; } /* a rejected input is simply not loaded */
 #endif
   if (len < 4) return;
   hist_t h;
